@@ -22,6 +22,8 @@
                              createNewFunction (positional dispatcher signature + Tuple instance test) → `posMatches`
                              createNewFunction / goFunction.Call  → `newPos`, `newNamed` (named dispatcher first, then positional;
                                                                     no dispatcher matches → ILLEGAL_ARGUMENTS)
+                             typeAndInit                          → `tyInit` (NotUndef[T] becomes Optional[T] in the init Struct)
+    types/coerce.go          coerceTo (named creator)             → `coerceOk` (INSTANCE_DOES_NOT_RESPOND)
                              Equals                               → `tyEq`
                              IsAssignable / IsInstance            → `isAssignable`, `isInstance`
     types/attributesinfo.go  newAttributesInfo                    → `nameToPos` (a Go map: the LAST position wins), `AttrInfo.eqIdx`
@@ -44,7 +46,7 @@
   Variant[A,B], Array[T]) with a decidable instance test (`inst`), the assignability the override check uses (`asg`) and
   the rewriting of the named constructor's init Struct (`tyInit`); nothing else in this file depends on which.
   Not modelled (outside the universe the driver accepts): functions, type parameters, annotations, a hash literal with a
-  repeated key, an `undef` given through `constants => {}` (its inferred type `Undef` is not in the alphabet).
+  repeated key, an array given through `constants => {}` (the type inferred for it is C04's business).
   Core-only file (linked into the driver).
 -/
 namespace Pcore.Object
@@ -156,7 +158,7 @@ inductive Code where
   | equalityAttributeNotFound | equalityOnConstant | equalityRedefined
   | serializationAttributeNotFound | serializationBadKind | serializationRequiredAfterOptional
   | serializationDuplicateAttribute
-  | illegalArguments | missingRequiredAttribute | attributeHasNoValue
+  | illegalArguments | missingRequiredAttribute | attributeHasNoValue | instanceDoesNotRespond
   | fault
   deriving DecidableEq, Repr, Inhabited
 
@@ -180,6 +182,7 @@ def Code.toString : Code → String
   | .illegalArguments => "reported ILLEGAL_ARGUMENTS"
   | .missingRequiredAttribute => "reported MISSING_REQUIRED_ATTRIBUTE"
   | .attributeHasNoValue => "reported ATTRIBUTE_HAS_NO_VALUE"
+  | .instanceDoesNotRespond => "reported INSTANCE_DOES_NOT_RESPOND"
   | .fault => "fault"
 
 /-! ### definitions and attributes -/
@@ -374,7 +377,8 @@ def tyOfVal : Val → Ty
   | .str _ => .str
   | .bool _ => .bool
   | .float _ => .float
-  | _ => .any      -- undef / a hash / an array: not accepted by the driver as a constant
+  | .undef => .undefT
+  | _ => .any      -- a hash / an array: not accepted by the driver as a constant
 
 /-- InitFromHash, constants loop: the attribute specification a `constants` entry stands for — the type inferred from the
     value, kind constant, and `override` set exactly when the parent has a member of that name -/
@@ -473,6 +477,14 @@ def namedMatches (ai : AttrInfo) (es : List (String × Val)) : Bool :=
     | none => false) &&
   ai.attrs.all (fun a => a.optional || (es.lookup a.name).isSome)
 
+/-- the named creator coerces every given value to its attribute's OWN type (`coerceTo`): a value that the init Struct
+    admitted but the attribute type rejects — on the alphabet only undef where `typeAndInit` turned `NotUndef[T]` into
+    `Optional[T]` — ends in `new(<the type>, value)`, which no type of the alphabet responds to -/
+def coerceOk (ai : AttrInfo) (es : List (String × Val)) : Bool :=
+  ai.attrs.all (fun a => match es.lookup a.name with
+    | some v => inst a.ty v
+    | none => true)
+
 /-- fillValueSlice for one position that the hash did not mention -/
 def fillOne (a : Attr) : Except Code Val :=
   if a.kind == .givenOrDerived then .ok .undef
@@ -510,9 +522,11 @@ def newPos (t : OType) (vs : List Val) : Except Code Obj :=
 /-- `asValue`: the hash itself as a value (used when only the positional signature accepts it) -/
 def newNamed (t : OType) (es : List (String × Val)) (asValue : Val) : Except Code Obj :=
   if namedMatches (attrInfo t) es then
-    match positionalFromHash (attrInfo t) es with
-    | .error c => .error c
-    | .ok vs => .ok { typ := t, values := vs }
+    if coerceOk (attrInfo t) es then
+      match positionalFromHash (attrInfo t) es with
+      | .error c => .error c
+      | .ok vs => .ok { typ := t, values := vs }
+    else .error .instanceDoesNotRespond
   else newPos t [asValue]
 
 /-- objectvalue.go valueAt (index out of range of the attribute list is a Go fault) -/
